@@ -275,6 +275,8 @@ func (s *Solver) Values(ts []*Term) (map[*Term]string, error) {
 	s.send("(get-value (" + strings.Join(names, " ") + "))")
 	s.send("(echo \"<<done>>\")")
 	s.flush()
+	t0 := time.Now()
+	defer func() { s.Time += time.Since(t0) }()
 	var all strings.Builder
 	for {
 		l, err := s.readLine()
